@@ -15,3 +15,9 @@ open Verif.Props.C04
 #print axioms flex_ok
 #print axioms line_drop_ok
 #print axioms dropKeywords_eq
+#print axioms unicode_range_merge_ok
+#print axioms writer_sep
+#print axioms passthrough_property
+#print axioms passthrough_token
+#print axioms passthrough_raw
+#print axioms writeRaw_plain
